@@ -59,12 +59,20 @@ func pred(name string) func(P) bool {
 
 var preds = []string{"false", "true", "eq0", "eq1", "even", "ne2"}
 
-func mk(s []int) []P {
-	out := make([]P, len(s))
+// mk builds a slice of distinguishable elements; with spare > 0 it gets SPARE CAPACITY (slots
+// behind its length holding values that are not part of the input): a helper that looks at cap()
+// instead of len(), or reads past the end, shows up as foreign elements in its result.
+func mk(s []int) []P { return mkSpare(s, 0) }
+
+func mkSpare(s []int, spare int) []P {
+	arr := make([]P, len(s)+spare)
 	for i, v := range s {
-		out[i] = P{v, i}
+		arr[i] = P{v, i}
 	}
-	return out
+	for i := len(s); i < len(arr); i++ {
+		arr[i] = P{-77, -1 - i}
+	}
+	return arr[:len(s)]
 }
 
 func eqP(a, b []P) bool {
@@ -149,7 +157,8 @@ func unhx(h string) string {
 
 func run(w *core.Worker, c Case) {
 	fail := func(sig, format string, a ...any) { w.Violation("c12."+c.Fn+"."+sig, fmt.Sprintf(format, a...)) }
-	s := mk(c.S)
+	// the argument has spare capacity in every second case (decided by the case, not by chance)
+	s := mkSpare(c.S, int(core.HashString(core.JSON(c))%2)*3)
 	orig := mk(c.S)
 	pr := pred(c.Pred)
 	nontrivial := len(c.S) >= 2
@@ -506,7 +515,7 @@ func nestings(depth int) []Nest {
 func TestProp(t *testing.T) {
 	r := core.Start(t, "C12")
 	defer r.Finish()
-	r.Rule("cases = one call of a reshaping helper on a slice of distinguishable elements {value, original index}: Chunk (concatenation + chunk lengths), Partition/Filter/Reject/DropWhile/DropRightWhile/GroupBy (exact parts in order), Zip/Unzip (transpose and mutual inverse), Flatten (leaves left to right), Merge (concatenation, also when the arguments are overlapping windows of one backing array), Drop (min(|n|,len) from the correct end), Reverse/ReverseStr (reversal + involution), Shuffle (permutation), Map/ForEach/ForEachRight/Reduce (callback log = each index once in order); non-trivial = input of >= 2 elements; distinct by hash of the case")
+	r.Rule("cases = one call of a reshaping helper on a slice of distinguishable elements {value, original index}: Chunk (concatenation + chunk lengths), Partition/Filter/Reject/DropWhile/DropRightWhile/GroupBy (exact parts in order), Zip/Unzip (transpose and mutual inverse), Flatten (leaves left to right), Merge (concatenation, also when the arguments are overlapping windows of one backing array), Drop (min(|n|,len) from the correct end), Reverse/ReverseStr (reversal + involution), Shuffle (permutation), Map/ForEach/ForEachRight/Reduce (callback log = each index once in order); in every second case the argument slice has spare capacity holding foreign values; non-trivial = input of >= 2 elements; distinct by hash of the case")
 
 	L := r.Pick(7, 9)
 	core.Monitor(r, "reshape-sweep", 0, func(emit func(Case)) {
